@@ -930,6 +930,18 @@ func h265DecCase(c *Case, mode bool, d *h265Desc, cut int) {
 		c.Tag("rx=sub-parser-value-reused")
 	}
 	c.I.BytesList(before).BytesList(after).Bool(sub != nil)
+	// Every case also hands `before` and the payload to a second receiver: ONE H265Packet with
+	// SetZeroAllocation(true) (the switch every depacketizer of the package has).  Its accessors are read
+	// right after the payload under test was decoded (in that mode a caller does not hold decoded packets
+	// across calls), and the unchanged predicate is evaluated on them once more.
+	z := &codecs.H265Packet{}
+	z.WithDONL(mode)
+	z.SetZeroAllocation(true)
+	for _, b := range before {
+		h265Parse(z, mode, cloneBytes(b))
+	}
+	var zview Toks
+	h265Parse(z, mode, cloneBytes(in)).view(&zview)
 	var h h265Held
 	if sub != nil {
 		for _, b := range before {
@@ -950,6 +962,7 @@ func h265DecCase(c *Case, mode bool, d *h265Desc, cut int) {
 	}
 	h.view(&c.O)
 	c.O.Bool(h265Head(in))
+	c.O.Tok(zview.String())
 }
 
 func genH265Dec(x *Ctx) {
